@@ -153,3 +153,17 @@ func init() {
 		NonTrivial: func(fp string) bool { return true },
 	}
 }
+
+func init() {
+	metaTable["C12"] = propMeta{Level: "fault_enumeration", Assumptions: []string{
+		"real turn.Client inside a testing/synctest bubble against a scripted server on a zero-latency in-memory network; instants are virtual and exact",
+		"the loss of a transmission is modelled at the server (it arrives and is ignored), so all transmissions are observable",
+		"responses are never placed exactly on a retransmission instant (ties are undetermined); +-1 ms offsets are used instead",
+		"go1.26.8 -race -tags verif build of /repo's working tree",
+	},
+		Rule: "fault enumeration over the 7 transmissions: every one of the 2^7 subsets of lost transmissions (quick: one response-delay policy and RTO per subset drawn from the PRNG; thorough: x 5 delay policies {0, half gap, next timer-1ms, next timer+1ms, after the schedule} x 7 RTOs), plus sampled cases of foreign-id/duplicate/late/echoed responses, 2-8 concurrent transactions with permuted answers, Client.Close after each transmission index, a write error on each transmission index, and a response delivered from inside the client's own WriteTo; " +
+			"oracle: arrival offsets must equal the arithmetic schedule (RTO doubling, 1.6 s cap), count and return instant exact, identity tag of the first matching response, empty transaction table (hook) afterwards; non-trivial = distinct (situation, parameters, RTO) fingerprints",
+		NonTrivial: func(fp string) bool { return true },
+		Exhaustive: func(tier string, ev map[string]int) bool { return ev["loss-subset-covered"] >= 128 },
+	}
+}
